@@ -389,7 +389,7 @@ func (p *Proxy) handleConnectRequest(ctx *Context, req *http.Request, session *S
 	}
 
 	log.Debugf("martian: attempting to establish CONNECT tunnel: %s", req.URL.Host)
-	res, cconn, cerr := p.connect(req)
+	res, cconn, cbr, cerr := p.connect(req)
 	if cerr != nil {
 		log.Errorf("martian: failed to CONNECT: %v", cerr)
 		res = proxyutil.NewResponse(502, nil, req)
@@ -432,8 +432,6 @@ func (p *Proxy) handleConnectRequest(ctx *Context, req *http.Request, session *S
 	if err := brw.Flush(); err != nil {
 		log.Errorf("martian: got error while flushing response back to client: %v", err)
 	}
-
-	cbr := bufio.NewReader(cconn)
 
 	// When one direction has delivered everything and seen end-of-stream, the receiving end is
 	// told so right away by shutting down the sending side of its connection; waiting for the
@@ -647,13 +645,17 @@ func (p *Proxy) roundTrip(ctx *Context, req *http.Request) (*http.Response, erro
 	return p.roundTripper.RoundTrip(req)
 }
 
-func (p *Proxy) connect(req *http.Request) (*http.Response, net.Conn, error) {
+// connect establishes the tunnel for a CONNECT request, directly or through the downstream
+// proxy. Besides the connection it returns the buffered reader the tunnel has to be read
+// through: with a downstream proxy, bytes of the target that arrived together with the
+// proxy's answer are already in it.
+func (p *Proxy) connect(req *http.Request) (*http.Response, net.Conn, *bufio.Reader, error) {
 	if p.proxyURL != nil {
 		log.Debugf("martian: CONNECT with downstream proxy: %s", p.proxyURL.Host)
 
 		conn, err := p.dial("tcp", p.proxyURL.Host)
 		if err != nil {
-			return nil, nil, err
+			return nil, nil, nil, err
 		}
 		pbw := bufio.NewWriter(conn)
 		pbr := bufio.NewReader(conn)
@@ -663,18 +665,23 @@ func (p *Proxy) connect(req *http.Request) (*http.Response, net.Conn, error) {
 
 		res, err := http.ReadResponse(pbr, req)
 		if err != nil {
-			return nil, nil, err
+			return nil, nil, nil, err
+		}
+		// What follows a successful answer to CONNECT is the tunnel, not a response body
+		// (without a Content-Length net/http would take everything up to EOF for one).
+		if res.StatusCode/100 == 2 {
+			res.Body = http.NoBody
 		}
 
-		return res, conn, nil
+		return res, conn, pbr, nil
 	}
 
 	log.Debugf("martian: CONNECT to host directly: %s", req.URL.Host)
 
 	conn, err := p.dial("tcp", req.URL.Host)
 	if err != nil {
-		return nil, nil, err
+		return nil, nil, nil, err
 	}
 
-	return proxyutil.NewResponse(200, nil, req), conn, nil
+	return proxyutil.NewResponse(200, nil, req), conn, bufio.NewReader(conn), nil
 }
